@@ -2,9 +2,11 @@
 direct _fjcore.Memory call sequences.  Progress is written before each case so that a sanitizer abort can be
 attributed to the case that caused it.  argv: in.json out.json progress_file"""
 import collections
+import ctypes
 import gc
 import json
 import os
+import resource
 import signal
 import struct
 import sys
@@ -43,6 +45,8 @@ class Dev(FixedIO):
         self.log = []
         self.fail = None
         self.side_calls = {}
+        self.oom = collections.Counter()
+        self.shadow = {}
 
     def attach_memory(self, m):
         self.mem = m
@@ -60,6 +64,27 @@ class Dev(FixedIO):
                     self.log.append(self.mem.read_data_byte(op[1]))
                 elif op[0] == 'wb':
                     self.mem.write_data_byte(op[1], op[2])
+                elif op[0] == 'ow':
+                    # a write of a fresh page while no memory can be had; afterwards the same word is written again and read back
+                    failed = False
+                    try:
+                        with clamped_address_space():
+                            self.mem.write_word(op[1], op[2])
+                    except MemoryError:
+                        failed = True
+                    self.oom['refused' if failed else 'served'] += 1
+                    before = self.mem.read_word(op[1]) if failed else None
+                    if failed and before != self.shadow.get(op[1], 0):
+                        self.oom['MISMATCH'] += 1
+                        self.log.append(['oom-mismatch', 'after the refused write', op[1], before])
+                    self.mem.write_word(op[1], op[2])
+                    self.shadow[op[1]] = op[2] & ((1 << self.mem.memory_width) - 1)
+                elif op[0] == 'ocheck':
+                    for a, v in self.shadow.items():
+                        got = self.mem.read_word(a)
+                        if got != v:
+                            self.oom['MISMATCH'] += 1
+                            self.log.append(['oom-mismatch', 'read back', a, got, v])
             except Exception as e:  # noqa
                 self.log.append('exc:' + type(e).__name__)
         self.calls += 1
@@ -81,6 +106,43 @@ class Dev(FixedIO):
         self._poke()
         self._maybe_fail('write')
         super().write_bit(b)
+
+
+def _vm_bytes():
+    with open('/proc/self/statm') as f:
+        return int(f.read().split()[0]) * os.sysconf('SC_PAGE_SIZE')
+
+
+def setup_memory_pressure():
+    """plain (non-sanitizer) build only: make every allocation of >= 64 KB an mmap of its own, so that with RLIMIT_AS clamped
+    to the current usage the engine's 128 KB page allocation fails while small allocations keep being served from the heap"""
+    global _LIBC
+    try:
+        _LIBC = ctypes.CDLL(None)
+        _LIBC.malloc.restype = ctypes.c_void_p
+        _LIBC.malloc.argtypes = [ctypes.c_size_t]
+        _LIBC.mallopt(-3, 65536)        # M_MMAP_THRESHOLD (a fixed value also switches the dynamic threshold off)
+    except Exception:  # noqa
+        _LIBC = None
+
+
+_LIBC = None
+
+
+class clamped_address_space:
+    """no growth of the address space inside the block (RLIMIT_AS = current usage); restored on exit"""
+    def __enter__(self):
+        self.old = resource.getrlimit(resource.RLIMIT_AS)
+        resource.setrlimit(resource.RLIMIT_AS, (_vm_bytes(), self.old[1]))
+        if _LIBC is not None:
+            # use up (and keep) the free heap chunks that could still hold a page: what is left serves small requests only
+            for _ in range(4096):
+                if not _LIBC.malloc(65536):
+                    break
+
+    def __exit__(self, *a):
+        resource.setrlimit(resource.RLIMIT_AS, self.old)
+        return False
 
 
 def _device_exception(name):
@@ -147,6 +209,11 @@ def do_file_case(c, td):
         res = {'exc': type(e).__name__, 'msg': str(e)[:120], 'inner': type(e.__cause__).__name__ if e.__cause__ else None}
     finally:
         signal.setitimer(signal.ITIMER_REAL, 0)
+    if dev.oom or c.get('expect') == 'oom':
+        res['oom'] = dict(dev.oom)
+        res['oom_log'] = [x for x in dev.log if isinstance(x, list) and x and x[0] == 'oom-mismatch'][:5]
+        dev.mem = None
+        gc.collect()           # the engine is freed here
     core = getattr(dev.mem, '_core_memory', None)
     if c.get('dev_fail') and core is not None:
         # the engine object outlives the failed run through the device hook: its kept last-ops list must still be owned by it
@@ -259,6 +326,11 @@ def do_api_case(c):
                     signal.setitimer(signal.ITIMER_REAL, 0)
                 out.append([r[0], r[1], r[2], list(r[3])[:8]])
                 del r
+            elif name == 'oom':
+                inner = args[0]
+                with clamped_address_space():
+                    r = getattr(m, inner[0])(*inner[1:])
+                out.append(r if r is None or isinstance(r, int) else str(r)[:40])
             elif name == 'last_ops_probe':
                 content, problem = _probe_last_ops(m)
                 if problem:
@@ -299,6 +371,8 @@ def do_api_case(c):
 
 def main():
     signal.signal(signal.SIGALRM, _alarm)
+    if os.environ.get('FJVERIF_MEMORY_PRESSURE'):
+        setup_memory_pressure()
     cases = json.loads(Path(sys.argv[1]).read_text())
     prog = Path(sys.argv[3])
     out = []
